@@ -3,7 +3,7 @@ use std::marker::PhantomData;
 #[allow(unused_imports)] use any_vec::traits::{Cloneable, None as TNone};
 #[allow(unused_imports)] use anyvec_mc::elem::*;
 use anyvec_mc::exec::{Cfg, Runner};
-#[allow(unused_imports)] use anyvec_mc::track::{Track, TrackFence, TrackFixed, TrackTight};
+#[allow(unused_imports)] use anyvec_mc::track::{Track, TrackFence, TrackFixed, TrackTight, TrackWarm};
 use anyvec_mc::Entry;
 #[cfg(feature = "alloc")] #[allow(unused_imports)] use any_vec::mem::Heap;
 
@@ -20,6 +20,7 @@ fn cfgs() -> Vec<Entry> {
     #[cfg(feature = "alloc")] { c!(v, false,"general",B1D,Heap,dyn Cloneable); }
     #[cfg(feature = "alloc")] { c!(v, false,"general",T3D,Heap,dyn Cloneable); }
     #[cfg(feature = "alloc")] { c!(v, false,"general",A32D,Heap,dyn Cloneable); }
+    c!(v, false,"general",F40D,TrackWarm,dyn Cloneable + Send);
     v
 }
 fn main() { anyvec_mc::main_with(cfgs) }
